@@ -327,6 +327,7 @@ def run(ctx):
     from . import system_common as sysc
     sessions, sverdict = sysc.run_sessions(ctx, 150 if ctx.quick else 3000, ctx.seed + 14)
     sysc.judge(ctx, "C14", sessions, sverdict, {"readtiming"}, "reading timing lists inside a session")
+    sysc.mc_for(ctx, "C14")          # MC_System: bounded model of whole sessions, every transition replayed on the library
     ctx.notes["sessions_with_a_readtiming_event"] = sum(1 for s_ in sessions if any(e["op"] == "readtiming" for e in s_["events"]))
     ctx.exhaustive = True
     ctx.rule = ("S2C: every tick within +-2000 beats (str / from_str) and every (a, op, b) of the bounded arithmetic model x operand types; "
